@@ -98,3 +98,69 @@ Proof.
   assert (E : (sq_mode (k_seq k) =? 2) = false) by (apply N.eqb_neq; exact Hm).
   rewrite E. reflexivity.
 Qed.
+
+(* ---- completeness at the handler: when the key-outputs table of a layer in the search order (or of the default layer) lists, for
+   the repeated position, a key that is currently held at the output, a repeat is written (for a held key; `write_repeat` drops
+   it only for keys of the configured ignore list) *)
+Lemma In_mem_n x l : In x l -> mem_n x l = true.
+Proof. intros H. unfold mem_n. apply existsb_exists. exists x. split; [exact H|apply N.eqb_refl]. Qed.
+
+Lemma first_repeatable_complete k cur outs kc :
+  In kc outs -> In kc cur -> exists kc', first_repeatable k cur outs = Some kc'.
+Proof.
+  intros Ho Hc. unfold first_repeatable.
+  destruct (find (fun kc0 => mem_n kc0 cur) (rev outs)) as [y|] eqn:E; [exists y; reflexivity|].
+  pose proof (find_none _ _ E kc (proj1 (in_rev _ _) Ho)) as H. cbn beta in H. rewrite (In_mem_n _ _ Hc) in H. discriminate.
+Qed.
+
+Lemma repeat_layers_complete cfg k cur code ly outs kc : forall ls r,
+  In ly ls -> outputs_for cfg ly code = Some outs -> In kc outs -> In kc cur ->
+  repeat_layers cfg k cur code ls = Ok r -> exists kc', r = Some kc'.
+Proof.
+  induction ls as [|l0 rest IH]; intros r Hin Ho Hk Hc; [destruct Hin|]. cbn [repeat_layers].
+  destruct (nth_error (kc_key_outputs cfg) (N.to_nat l0)); [|discriminate].
+  destruct Hin as [->|Hin].
+  - rewrite Ho. destruct (first_repeatable_complete k cur outs kc Hk Hc) as [kc' E]. rewrite E.
+    intros H. inversion H. exists kc'. reflexivity.
+  - destruct (outputs_for cfg l0 code) as [outs0|]; [|apply IH; assumption].
+    destruct (first_repeatable k cur outs0) as [kc'|]; [intros H; inversion H; exists kc'; reflexivity|apply IH; assumption].
+Qed.
+
+Theorem repeat_forwarded_when_listed cfg k code evs ls ly outs kc :
+  handle_repeat cfg k code = Ok evs ->
+  sq_active (k_seq k) && negb (sq_mode (k_seq k) =? 2) = false ->
+  trans_order (kc_layout cfg) (k_layout k) = Ok ls ->
+  In ly ls \/ ly = default_layer (k_layout k) ->
+  outputs_for cfg ly code = Some outs -> In kc outs -> repeatable cfg k kc ->
+  exists kc', evs = write_repeat cfg kc' /\ repeatable cfg k kc'.
+Proof.
+  unfold handle_repeat, repeatable. fold (repeat_cur cfg k). intros H Hs Ht Hly Ho Hk Hc. rewrite Hs, Ht in H. cbn [bind] in H.
+  destruct (repeat_layers cfg k (repeat_cur cfg k) code ls) as [r| |] eqn:Er; cbn [bind] in H; try discriminate.
+  destruct r as [kc'|].
+  - inversion H. exists kc'. split; [reflexivity|]. exact (repeat_layers_sound _ _ _ _ _ _ Er).
+  - destruct Hly as [Hly| ->].
+    + destruct (repeat_layers_complete cfg k _ code ly outs kc ls None Hly Ho Hk Hc Er) as [kc' E]. discriminate.
+    + destruct (nth_error (kc_key_outputs cfg) (N.to_nat (default_layer (k_layout k)))); [|discriminate].
+      rewrite Ho in H. destruct (first_repeatable_complete k (repeat_cur cfg k) outs kc Hk Hc) as [kc' E]. rewrite E in H.
+      inversion H. exists kc'. split; [reflexivity|]. exact (proj2 (first_repeatable_sound _ _ _ _ E)).
+Qed.
+
+(* and when no table lists anything held, the physical key itself is repeated if it is held at the output *)
+Theorem repeat_of_unmapped_held_key cfg k code evs :
+  handle_repeat cfg k code = Ok evs ->
+  sq_active (k_seq k) && negb (sq_mode (k_seq k) =? 2) = false ->
+  repeatable cfg k code -> exists kc', evs = write_repeat cfg kc' /\ repeatable cfg k kc'.
+Proof.
+  unfold handle_repeat, repeatable. fold (repeat_cur cfg k). intros H Hs Hc. rewrite Hs in H.
+  destruct (trans_order (kc_layout cfg) (k_layout k)) as [ls| |]; cbn [bind] in H; try discriminate.
+  destruct (repeat_layers cfg k (repeat_cur cfg k) code ls) as [r| |] eqn:Er; cbn [bind] in H; try discriminate.
+  destruct r as [kc'|].
+  - inversion H. exists kc'. split; [reflexivity|]. exact (repeat_layers_sound _ _ _ _ _ _ Er).
+  - destruct (nth_error (kc_key_outputs cfg) (N.to_nat (default_layer (k_layout k)))); [|discriminate].
+    destruct (match outputs_for cfg (default_layer (k_layout k)) code with
+              | Some outs => first_repeatable k (repeat_cur cfg k) outs | None => None end) as [kc'|] eqn:Ed.
+    + inversion H. exists kc'. split; [reflexivity|].
+      destruct (outputs_for cfg (default_layer (k_layout k)) code) as [outs|]; [|discriminate].
+      exact (proj2 (first_repeatable_sound _ _ _ _ Ed)).
+    + rewrite (In_mem_n _ _ Hc) in H. inversion H. exists code. split; [reflexivity|exact Hc].
+Qed.
